@@ -340,6 +340,25 @@ def input_contracts():
                 'not isinstance(obj, "Set")',
                 'not isinstance(obj, "Iterable") or isinstance(obj, "str")'],
       ensures=['result == obj', 'len(calls) == 0'])
+    # a host iterable of no other kind (iterator, generator, view, deque):
+    # handed on as a LAZY stream - nothing is pulled and no element is
+    # converted before the expression asks for it (an endless or one-shot
+    # host stream stays usable under yaql.limitIterators)
+    c('iterable', params=dict(obj=TIter(TVal)),
+      ensures=['obj.pos == 0', 'len(calls) == 0',
+               'len(result.seq) == len(old_obj.seq)'],
+      serves=('C14', 'C08', 'C10'))
+    # ... the same for one that can be iterated again (a view, a deque): it
+    # is not walked at conversion time either
+    c('reiterable', params=dict(obj=TVal),
+      requires=['isinstance(obj, "Iterable")',
+                'not isinstance(obj, "Iterator")',
+                'not isinstance(obj, "Sequence")',
+                'not isinstance(obj, "Mapping")',
+                'not isinstance(obj, "Set")', 'not isinstance(obj, "str")'],
+      ensures=['len(calls) == 1', 'calls[0][0] == "map"',
+               'calls[0][1][1] is obj'],
+      serves=('C14', 'C08', 'C10'))
     return cs
 
 
